@@ -253,6 +253,27 @@ func c04Entries(m *Model) []c04Entry {
 			mt.SetChecksum(c04Key18, 23)
 			mb, _ := mt.Marshal()
 			return [][]byte{wb, mb}
+		}, corpus: func() [][]byte {
+			// tokens of 16 octets (header only) and a few more, with EC and RRC on their boundaries
+			var out [][]byte
+			for _, id := range [][]byte{{5, 4}, {4, 4}} {
+				for _, fl := range []byte{0, 1, 2, 4, 7} {
+					for _, ec := range []uint16{0, 1, 12, 0xffff} {
+						for _, rrc := range []uint16{0, 1, 12, 28, 0xffff} {
+							for _, extra := range []int{0, 1, 12, 13} {
+								b := make([]byte, 16+extra)
+								copy(b, id)
+								b[2], b[3] = fl, 0xff
+								binary.BigEndian.PutUint16(b[4:], ec)
+								binary.BigEndian.PutUint16(b[6:], rrc)
+								b[15] = 1
+								out = append(out, b)
+							}
+						}
+					}
+				}
+			}
+			return out
 		}, run: func(b []byte) {
 			for _, acc := range []bool{true, false} {
 				var w gssapi.WrapToken
@@ -288,6 +309,24 @@ func c04Entries(m *Model) []c04Entry {
 			}
 			for _, n := range names {
 				out = append(out, sp[n])
+			}
+			return out
+		}, corpus: func() [][]byte {
+			// one-buffer PACs whose buffer (of each type, 0..5 octets) sits at and around the end of the data
+			var out [][]byte
+			for _, ty := range []uint32{1, 6, 7, 10, 12, 13, 14} {
+				for data := 0; data <= 8; data += 4 {
+					for size := uint32(0); size <= 5; size++ {
+						for off := 16; off <= 24+data+1; off++ {
+							b := make([]byte, 24+data)
+							binary.LittleEndian.PutUint32(b[0:], 1)
+							binary.LittleEndian.PutUint32(b[8:], ty)
+							binary.LittleEndian.PutUint32(b[12:], size)
+							binary.LittleEndian.PutUint64(b[16:], uint64(off))
+							out = append(out, b)
+						}
+					}
+				}
 			}
 			return out
 		}, run: func(b []byte) {
